@@ -663,7 +663,8 @@ def _account(chk: Check, cases: T.List[T.Dict[str, T.Any]], vers: T.List[str]) -
             got = c.get('got', [])
             if any(g != 'E' for g in got) or txt(c['text']).count('(') >= 2:
                 chk.nontriv('cfg:' + txt(c['text']))
-        if taken < 2 and k in ('req', 'cfg', 'svtri') and (k != 'cfg' or any(g != 'E' for g in c.get('got', []))):
+        if taken < 2 and k in ('req', 'cfg', 'svtri') and (k != 'cfg' or any(g != 'E' for g in c.get('got', []))) \
+                and (k != 'req' or (0 < len(c.get('acc', [])) < len(vers) and ',' in txt(c['r']))):
             if k == 'req':
                 chk.sample({'kind': 'req', 'requirement': txt(c['r']), 'accepted': [vers[j - 1] for j in c['acc']][:10],
                             'of': len(vers)}, limit=12)
